@@ -275,6 +275,12 @@ def copied(C, n, A1, i1, j1):
 
 
 @spec
+def collected(C, n, transformed):
+    """`transformed` holds the first n row objects of C, in order"""
+    return len(transformed) == n and forall(lambda q: implies(0 <= q and q < n, transformed[q] is C.rows.rws0[q]))
+
+
+@spec
 def replaced(C, n, ic, M):
     return forall(lambda q: implies(0 <= q and q < n,
                                     len(C.rows.rws0[q].cells) == len(C.rows.rws0[q].cells0)
@@ -436,7 +442,7 @@ def _forall(vs, body, *pats):
 def ext_readFile(e, args, kw, node, st):
     """adapter.readFile(path) -> list of fresh container objects holding parse(text of the file); see the module docstring.
     Assumed about the reader: all objects are new and pairwise different (no list object is shared between two places),
-    category names inside a container are pairwise different and are exactly the keys of its catalog."""
+    category names inside a container are pairwise different and each is a key of its catalog."""
     if len(args) != 2 or kw:
         raise Unsupported("readFile(path) only")
     U = e.ufuns
@@ -467,7 +473,6 @@ def ext_readFile(e, args, kw, node, st):
     ato = z3.Function(uid("obj_attrs"), I, I, I)
     rlo = z3.Function(uid("obj_rowlist"), I, I, I)
     rwo = z3.Function(uid("obj_row"), I, I, I, I)
-    kof = z3.Function(uid("cat_index"), I, S, I)
     b, k, k2, q, a, c = (z3.Int(uid(x)) for x in "bkkqac")
     s = z3.String(uid("s"))
     n = U["nblocks"](P)
@@ -487,9 +492,7 @@ def ext_readFile(e, args, kw, node, st):
         _forall([b, k], z3.Implies(ink, sel2(items.elems, nmo(b), k) == cname(P, b, k)), sel2(items.elems, nmo(b), k), cname(P, b, k)),
         _forall([b, k, k2], z3.Implies(z3.And(ink, k2 >= 0, k2 < ncat(P, b), k != k2), cname(P, b, k) != cname(P, b, k2)),
                 z3.MultiPattern(cname(P, b, k), cname(P, b, k2))),
-        # catalog keys = names
-        _forall([b, s], z3.Implies(z3.And(inb, sel2(dom, cont(b), s)),
-                                   z3.And(kof(b, s) >= 0, kof(b, s) < ncat(P, b), cname(P, b, kof(b, s)) == s)), sel2(dom, cont(b), s)),
+        # every name is a key of the catalog (that the catalog has no further keys is true of the library but not needed)
         _forall([b, k], z3.Implies(ink, z3.And(
             sel2(dom, cont(b), cname(P, b, k)), sel2(vals, cont(b), cname(P, b, k)) == cto(b, k), new(cto(b, k)),
             z3.Select(c_cont, cto(b, k)) == cont(b), z3.Select(c_name, cto(b, k)) == cname(P, b, k), z3.Select(c_nis, cto(b, k)),
@@ -497,7 +500,7 @@ def ext_readFile(e, args, kw, node, st):
             z3.Select(s_kind, ato(b, k)) == 1, z3.Select(items.length, ato(b, k)) == nattr(P, b, k), nattr(P, b, k) >= 0,
             z3.Select(c_rows, cto(b, k)) == rlo(b, k), new(rlo(b, k)), z3.Select(rl_owner, rlo(b, k)) == cto(b, k),
             z3.Select(rws.length, rlo(b, k)) == nrows(P, b, k), nrows(P, b, k) >= 0)),
-            cto(b, k), sel2(vals, cont(b), cname(P, b, k)), cname(P, b, k)),
+            cto(b, k), sel2(vals, cont(b), cname(P, b, k))),
         _forall([b, k, a], z3.Implies(z3.And(ink, a >= 0, a < nattr(P, b, k)), sel2(items.elems, ato(b, k), a) == attr(P, b, k, a)),
                 sel2(items.elems, ato(b, k), a), attr(P, b, k, a)),
         _forall([b, k, q], z3.Implies(inr, z3.And(
@@ -549,16 +552,41 @@ ext_getRowList.pure = True
 
 
 def ext_DataCategory(e, args, kw, node, st):
-    """DataCategory(name, attributeNameList, rowList): a new category object holding deep copies of the two lists.  Only what
-    the code under contract can observe is specified: the object is new, nothing existing changes, its name is the given
-    string - or, when an object is passed as the name, not a string at all (the copies' contents are left unspecified)."""
+    """DataCategory(name, attributeNameList, rowList): a new category object holding deep copies of the two lists (a new
+    attribute list object with the same strings, a new row list of new row objects with the same cells).  Nothing existing
+    changes.  Its name is the given string - or, when an object is passed as the name, not a string at all."""
     if len(args) != 3 or kw:
         raise Unsupported("DataCategory(name, attributes, rows) only")
-    nm = args[0]
+    nm, attrs, rows = args
+    if isinstance(attrs, VRef) and attrs.cls == "StrList":
+        attrs = e.heap_read(st, attrs, "items")
+    if isinstance(rows, VRef) and rows.cls == "RowList":
+        rows = e.heap_read(st, rows, "rws")
+    if not (isinstance(attrs, VList) and isinstance(rows, VList)) or (attrs.elems is not None and attrs.eshape != ("str",)) \
+            or (rows.elems is not None and rows.eshape != ("ref", "Row")):
+        raise Unsupported("DataCategory: attribute / row lists of this kind")
     new = _alloc(e, st, "Category")
-    a1 = z3.Int(uid("alloc"))
-    st.assume(a1 >= to_z3(st.alloc))  # the deep copies are further new objects
-    st.alloc = a1
+    al = _alloc(e, st, "StrList")
+    rl = _alloc(e, st, "RowList")
+    e.heap_write(st, al, "items", attrs)
+    e.heap_write(st, new, "attrs", al)
+    e.heap_write(st, new, "rows", rl)
+    base = to_z3(st.alloc)
+    n = to_z3(rows.length)
+    st.assume(n >= 0)
+    q, r = z3.Int(uid("q")), z3.Int(uid("r"))
+    copies = z3.Const(uid("copies"), z3.ArraySort(I, I))
+    st.assume(z3.ForAll([q], z3.Implies(z3.And(q >= 0, q < n), z3.Select(copies, q) == base + q), patterns=[z3.Select(copies, q)]))
+    e.heap_write(st, rl, "rws", VList(n, VRef("Row", copies), ("ref", "Row")))
+    if rows.elems is not None:
+        old = _h(e, st, "Row", "cells")
+        e.havoc_heap(st, "Row.cells")
+        cur = _h(e, st, "Row", "cells")
+        src = z3.Select(rows.elems.ident, r - base)
+        inside = z3.And(r >= base, r < base + n)
+        for x, y in zip(leaves(cur), leaves(old)):
+            st.assume(z3.ForAll([r], z3.Select(x, r) == z3.If(inside, z3.Select(y, src), z3.Select(y, r)), patterns=[z3.Select(x, r)]))
+    st.alloc = z3.simplify(base + n)
     if isinstance(nm, str) or (z3.is_expr(nm) and nm.sort() == S):
         e.heap_write(st, new, "name", nm)
         e.heap_write(st, new, "name_is_str", True)
@@ -746,6 +774,7 @@ class copy_from_to:
         "attributes.items == A1",
         "rows_kept(C, n)",
         "copied(C, n, A1, i1, j1)",
+        "collected(C, n, transformed)",
     ]}}
     ghost = [
         {"when": "after", "at": "attributes = category_obj.getAttributeList()", "label": "category-object",
@@ -794,6 +823,7 @@ class replace_value:
         "first_seen_upto(P, kc, ic, n, values, mapping)",
         "images_in_prefix(values, mapping)",
         "implies(distinct_chars(values), injective(mapping))",
+        "collected(C, n, transformed)",
     ]}}
     ghost = [
         {"when": "after", "at": "attributes = category_obj.getAttributeList()", "label": "category-object",
